@@ -6,6 +6,48 @@ ROOT = os.path.dirname(os.path.dirname(os.path.abspath(__file__)))
 
 # id -> (technique, level category, level text, level note, design ref)
 CHECKS = {
+    "C01": (
+        "property-based testing: generated grammars x inputs; oracle = Earley recogniser + tree validity + table certificate",
+        "exploration",
+        "Random and bounded-exhaustive inputs over generated grammars (all strata); every accepted tree validated against the abstract grammar, language equality against an Earley recogniser when no conflicts are reported.",
+        "Trusted: own Earley recogniser (self-tested), abstract-grammar renderer, proptest, rustc. Grammars with precedence declarations excluded from the language-equality clause; grammars whose table can reduce forever without consuming input are outside the parse domain (finding C07-nonconsuming-reduce-loop).",
+        "DESIGN.md section 5, C01",
+    ),
+    "C02": (
+        "property-based testing: differential against an own canonical LR(1) construction and driver",
+        "exploration",
+        "Generated LR(1) grammars (70% from LR(1)-not-LALR(1) families): no conflicts, never more states than canonical LR(1), same tree / same error index as a canonical LR(1) parser on every generated input.",
+        "Trusted: own canonical LR(1) item-set construction and 20-line LR driver.",
+        "DESIGN.md section 5, C02",
+    ),
+    "C03": (
+        "property-based testing: every table cell re-derived from the closed item sets and the abstract grammar's precedence model; conflict lists as multisets; %expect through the compile-time builder",
+        "exploration",
+        "Generated ambiguous expression grammars with random precedence declarations: all cells of all states compared with Yacc's resolution rules, conflict reports compared exactly, compile-time build must fail iff counts differ from %expect/%expect-rr.",
+        "Trusted: own precedence model read from the abstract grammar. Cells offering a shift and >=2 reductions only have to hold one of the candidates.",
+        "DESIGN.md section 5, C03",
+    ),
+    "C04": (
+        "property-based testing: first error position against Earley's first non-viable prefix",
+        "exploration",
+        "Conflict-free generated grammars x non-sentences: exactly one error at the first lexeme that cannot continue a sentence (recovery off), same first error with recovery on.",
+        "Trusted: own Earley recogniser as viable-prefix oracle; recovery run under the cfg(grmtools_verif) hooks (budget override, expansion cap).",
+        "DESIGN.md section 5, C04",
+    ),
+    "C16": (
+        "property-based testing: cross-checking every public state-graph / state-table query per state, token and rule; closed states against a reference LR(1) closure",
+        "exploration",
+        "Generated grammars with and without precedence-resolved and %nonassoc-removed entries: all states x tokens x rules.",
+        "Trusted: own LR(1) closure with own FIRST/nullable.",
+        "DESIGN.md section 5, C16",
+    ),
+    "C17": (
+        "property-based testing: grammar analyses against independently written fixed-point / relaxation analyses and Earley derivability; watchdog for termination",
+        "exploration",
+        "Generated grammars with nullable symbols anywhere, unit cycles, unproductive and unreachable rules x cost functions: FIRST, FOLLOW, epsilon, has_path, min/max costs, minimal sentences.",
+        "Trusted: refimpl::analyses and Earley. Exact on reduced grammars, bracketed by the two readings of the definitions otherwise. Termination = answer within a watchdog re-confirmed 10x in a fresh process.",
+        "DESIGN.md section 5, C17",
+    ),
     "C19": (
         "property-based testing (proptest choice streams, shrinking) against a naive line/column reference model",
         "exploration",
